@@ -1,5 +1,7 @@
 import SeqVerif.Base.Proto
 import SeqVerif.Model.ProxyRead
+import SeqVerif.Model.ProxyApi
+import SeqVerif.Extracted.C16
 /-!
 Driver for C16.  IDs are `mid.rid`; lists are `,`-separated, `-` = empty.
 
@@ -13,8 +15,10 @@ Driver for C16.  IDs are `mid.rid`; lists are `,`-separated, `-` = empty.
   uniq <docs>
   full <hot> <cold> <offset> <size> <rev> <src 0|1> <hint> <fetch 0|1> <order> <behav>
   api <hot> <cold> <offset> <size> <rev> <hint> <order> <behav>     the same through proxyapi Search
+  export <hot> <cold> <offset> <size> <hint> <order> <behav>         proxyapi Export (newest first)
+  fetchapi <ids> <srcs> <order> <behav>                              proxyapi Fetch (Ingestor.Documents)
 -/
-open SV SV.Proto SV.ProxySearch SV.DocsMerge SV.ProxyRead
+open SV SV.Proto SV.ProxySearch SV.DocsMerge SV.ProxyRead SV.ProxyApi
 
 def parseID (s : String) : Option ProxySearch.ID :=
   match s.splitOn "." with
@@ -196,6 +200,23 @@ def step (line : String) : String :=
       | .panic => "panic"
       | .resp ids docs p t => s!"ok partial={fmtBool p} total={toInt64 t} ids={fmtIDs ids} docs={fmtNats docs}"
     | _, _, _, _, _, _, _, _ => "bad-op"
+  | ["export", hot, cold, off, sz, hint, order, behav] =>
+    match parseArrival hot, parseArrival cold, off.toNat?, sz.toNat?, hint.toNat?, natList? order, parseBehav behav with
+    | some h, some c, some off, some sz, some hint, some order, some b =>
+      match apiExport SV.Extracted.C16.exportReportsPartial (searchAndFetch h c off sz false hint true order (behavFn b)) with
+      | .status ia => if ia then "err invalid-argument" else "err internal"
+      | .plainErr => "err unknown"
+      | .panic => "panic"
+      | .stream docs e => s!"ok end={if e then "error" else "ok"} docs=" ++ fmtList (fun (d : ProxySearch.ID × Nat) => s!"{fmtID d.1}={d.2}") docs
+    | _, _, _, _, _, _, _ => "bad-op"
+  | ["fetchapi", ids, srcs, order, behav] =>
+    match parseIDs ids, natList? srcs, natList? order, parseBehav behav with
+    | some ids, some srcs, some order, some b =>
+      match apiFetch ids srcs order (behavFn b) with
+      | .internal => "err internal"
+      | .panic => "panic"
+      | .docs l => "ok " ++ fmtList (fun (d : ProxySearch.ID × Nat) => s!"{fmtID d.1}={d.2}") l
+    | _, _, _, _ => "bad-op"
   | _ => "bad-op"
 
 def main : IO Unit := SV.Proto.main step
